@@ -96,12 +96,18 @@ def gen_repo(r, portable=False, with_dist=None, ignored_dirs=True, complete=Fals
         if r.random() < 0.5:
             mkfile('metadata/timestamp', b'now\n')
             mkfile('metadata/timestamp.chk', b'now\n')
+        # the other bookkeeping files of the rsync mirrors
+        for bk in ('timestamp.commit', 'timestamp.x'):
+            if r.random() < 0.35:
+                mkfile('metadata/' + bk, b'1700000000 now\n')
         for sub in ('dtd', 'glsa', 'news', 'xml-schema'):
             if r.random() < 0.5 or complete:
                 mkdir('metadata/' + sub, 'metadata-sub')
                 mkfile(f'metadata/{sub}/' + r.choice(['a.xml', 'b.dtd', 'index']))
                 if r.random() < 0.3:
                     mkfile(f'metadata/{sub}/timestamp.chk', b't\n')
+                if r.random() < 0.3:
+                    mkfile(f'metadata/{sub}/timestamp.commit', b'c\n')
                 if sub == 'news' and r.random() < 0.5:
                     mkdir('metadata/news/2020-01-01-x', 'plain')
                     mkfile('metadata/news/2020-01-01-x/2020-01-01-x.en.txt')
